@@ -196,6 +196,48 @@ func (P *Prog) evalBytes(t *Term) ([]byte, bool) {
 	return byteArr(t)
 }
 
+// prefixEstablished: the facts imply that data starts with the bytes exp:
+// bytes.HasPrefix(data, P) with P evaluating to exp, or len(data) >= len(exp)
+// together with data[i] == exp[i] for every i.
+func (P *Prog) prefixEstablished(fs factSet, data *Term, exp []byte) (bool, string) {
+	why := "no prefix fact on the input in the success summary"
+	for _, b := range fs.matchAll([]factPat{fp("call<bytes.HasPrefix>(%D, %P)")}, bindings{"D": data}) {
+		if bs, ok := P.evalBytes(b["P"]); ok {
+			if string(bs) == string(exp) {
+				return true, fmt.Sprintf("bytes.HasPrefix(input, % x)", bs)
+			}
+			why = fmt.Sprintf("prefix checked is % x, expected % x", bs, exp)
+		}
+	}
+	// byte-wise
+	got := map[int64]byte{}
+	for _, b := range fs.matchAll([]factPat{fp("binop<==>(*index(%D, %I), %X)")}, bindings{"D": data}) {
+		i, okI := termConstInt(b["I"])
+		v, okV := P.evalByte(b["X"])
+		if okI && okV {
+			got[i] = v
+		}
+	}
+	if len(got) > 0 {
+		all := true
+		for i, e := range exp {
+			if v, ok := got[int64(i)]; !ok || v != e {
+				all = false
+				if ok {
+					why = fmt.Sprintf("byte %d compared with %#x, expected %#x", i, v, e)
+				}
+			}
+		}
+		if all {
+			if len(exp) == 1 || fs.lenLowerBound(data, P.foldIntG) >= int64(len(exp)) {
+				return true, fmt.Sprintf("input[i] == % x byte by byte", exp)
+			}
+			why = "bytes compared but the input length is not bounded below"
+		}
+	}
+	return false, why
+}
+
 // storedValue: the whole-value store `*recv = V` of a decoder; returns the
 // term of V and the root alloc of V when V is a local built in place.
 func (P *Prog) receiverStores(fn *ssa.Function) []*ssa.Store {
@@ -446,27 +488,7 @@ func runC05(r *Report, tier string) {
 		r.ob("R05.3", name+":offset", D, nil, "the mode receives the input starting exactly after the tag head").check(k == int64(len(exp)-1), fmt.Sprintf("input[%d:]", k), fmt.Sprintf("the mode receives %s, expected the input from offset %d (tag head of %d bytes)", src, len(exp)-1, len(exp)-1))
 		// prefix fact
 		op := r.ob("R05.3", name+":prefix", D, nil, fmt.Sprintf("success implies the input starts with % x", exp))
-		okPrefix, why := false, "no prefix fact on the input in the success summary"
-		for _, b := range sum.matchAll([]factPat{fp("call<bytes.HasPrefix>($1, %P)")}, nil) {
-			if bs, ok := P.evalBytes(b["P"]); ok {
-				if string(bs) == string(exp) {
-					okPrefix, why = true, fmt.Sprintf("bytes.HasPrefix(input, % x)", bs)
-				} else {
-					why = fmt.Sprintf("prefix checked is % x, expected % x", bs, exp)
-				}
-			}
-		}
-		if !okPrefix && len(exp) == 1 {
-			for _, b := range sum.matchAll([]factPat{fp("binop<==>(*index($1, 0), %X)")}, nil) {
-				if v, ok := P.evalByte(b["X"]); ok {
-					if v == exp[0] {
-						okPrefix, why = true, fmt.Sprintf("input[0] == %#x", v)
-					} else {
-						why = fmt.Sprintf("first byte compared with %#x, expected %#x", v, exp[0])
-					}
-				}
-			}
-		}
+		okPrefix, why := P.prefixEstablished(sum, T0p1(), exp)
 		op.check(okPrefix, why, why)
 
 		// stored value
@@ -870,7 +892,7 @@ func c05BstrNil(r *Report, isTF func(string) bool) {
 			o.check(isTF(mname) && mt && okArgs, "major type 2, delegated to "+mname+".Unmarshal(data, receiver)", fmt.Sprintf("tags-forbidden mode:%v major type 2:%v decodes the whole input into the receiver:%v", isTF(mname), mt, okArgs))
 			continue
 		}
-		f6 := len(x.facts.matchAll([]factPat{fp("call<bytes.Equal>($1, arr<byte>(246))")}, nil)) > 0
+		f6 := isExactlyF6(x.facts)
 		o.check(f6, "data == [f6]", "a success exit that is neither the f6 arm nor the delegated decode")
 	}
 	r.floor("R05.6", n, 2, "success exits of the bstr/nil decoder")
@@ -878,7 +900,7 @@ func c05BstrNil(r *Report, isTF func(string) bool) {
 	for _, st := range P.receiverStores(fn) {
 		fs := P.factsBefore(st)
 		vt := P.terms.of(st.Val)
-		ok := vt.Op == "nil" && len(fs.matchAll([]factPat{fp("call<bytes.Equal>($1, arr<byte>(246))")}, nil)) > 0
+		ok := vt.Op == "nil" && isExactlyF6(fs)
 		r.ob("R05.6", shortFn(fn)+":store-nil", fn, st, "the only direct store is nil under data == [f6]").check(ok, "nil under data == [f6]", "store of "+vt.String()+" outside the f6 arm")
 	}
 }
@@ -920,4 +942,15 @@ func mutC05() []mutant {
 		{Name: "D4 re-created: countersignature lists may be empty or hold nil", File: "headers.go", Quick: true, Rule: "R05.7",
 			Old: "\tcase []*Countersignature:\n\t\tif len(v) == 0 {\n\t\t\treturn false\n\t\t}\n\t\tfor _, countersignature := range v {\n\t\t\tif countersignature == nil {\n\t\t\t\treturn false\n\t\t\t}\n\t\t}\n\t\treturn true", New: "\tcase []*Countersignature:\n\t\treturn true"},
 	}
+}
+
+func T0p1() *Term { return &Term{Op: "param", S: "1"} }
+
+// isExactlyF6: the facts say the input is exactly the single byte f6 (CBOR
+// null): bytes.Equal(data, [f6]) or len(data) == 1 with data[0] == f6.
+func isExactlyF6(fs factSet) bool {
+	if len(fs.matchAll([]factPat{fp("call<bytes.Equal>($1, arr<byte>(246))")}, nil)) > 0 {
+		return true
+	}
+	return len(fs.matchAll([]factPat{fp("binop<==>(1, len($1))"), fp("binop<==>(246, *index($1, 0))")}, nil)) > 0
 }
